@@ -59,10 +59,10 @@ func TestVerifC16BridgeLateJoin(t *testing.T) {
 	run.Floor("late_joins_after_first_close", 100)
 	run.Floor("late_conns_closed_by_final_close", 100)
 	scope := []string{"tunnox-core/internal/protocol/session/tunnel", "tunnox-core/internal/stream"}
-	for done := 0; done < n && run.Violations() < 20 && run.Counter("leak_violations") < 3; done += batch {
+	for done := 0; done < n && run.Violations() < 20 && run.Counter("leak_violations") < 3 && run.Counter("conns_left_open") < 10; done += batch {
 		snap := vk.SnapshotGoroutines()
 		var cleanup []func()
-		for b := 0; b < batch && done+b < n; b++ {
+		for b := 0; b < batch && done+b < n && run.Counter("conns_left_open") < 10; b++ {
 			trial := done + b
 			k1 := []int{1, 2, 4}[r.Intn(3)]
 			k2 := []int{1, 2, 4}[r.Intn(3)]
@@ -208,6 +208,7 @@ func TestVerifC16BridgeLateJoin(t *testing.T) {
 					}
 					continue
 				}
+				run.Count("conns_left_open", 1) // the test stops after 10 (each one costs a 200 ms peer read)
 				// corroborate from the peer's side: a pending Read must end
 				h.far.SetReadDeadline(time.Now().Add(200 * time.Millisecond))
 				_, err := h.far.Read(make([]byte, 1))
